@@ -1612,3 +1612,110 @@ SESSION_TARGETS = [
     (r"^x224::<impl at src/core/x224\.rs[^>]*>::read$", []),
     (r"^tpkt::<impl at src/core/tpkt\.rs[^>]*>::(read|read_body)$", []),
 ]
+
+
+# --------------------------------------------------------------------------
+# C18: option handling of the record container (Component::read/write/length)
+# --------------------------------------------------------------------------
+COMPONENT_NATIVE = _native("verif_replay_component_options", "src/model/data.rs", """
+        // a size-dependent block of every size 0..4 followed by a tail field, and a skippable field
+        for n in 0u8..5 {
+            let mk = || component![
+                "len" => DynOption::new(n, |x| MessageOption::Size("data".to_string(), *x as usize)),
+                "data" => Vec::<u8>::new(),
+                "tail" => U16::LE(0)
+            ];
+            let mut bytes = vec![n];
+            for i in 0..n { bytes.push(0x10 + i); }
+            bytes.extend_from_slice(&[0xAA, 0xBB]);
+            let mut m = mk();
+            let mut c = Cursor::new(bytes.clone());
+            m.read(&mut c).unwrap();
+            assert_eq!(c.position() as usize, bytes.len(), "size {}: consumed exactly", n);
+            assert_eq!(cast!(DataType::Slice, m["data"]).unwrap().len(), n as usize, "size {}: sized block", n);
+            assert_eq!(cast!(DataType::U16, m["tail"]).unwrap(), 0xBBAA, "size {}: tail", n);
+        }
+        for flag in 0u8..2 {
+            let mk = |f: u8| component![
+                "flag" => DynOption::new(f, |x| if *x == 1 { MessageOption::SkipField("opt".to_string()) } else { MessageOption::None }),
+                "opt" => U16::LE(0x1111),
+                "tail" => 7 as u8
+            ];
+            let w = to_vec(&mk(flag));
+            assert_eq!(w.len() as u64, mk(flag).length(), "length == bytes written");
+            assert_eq!(w.len(), if flag == 1 { 2 } else { 4 });
+            let mut r = mk(0);
+            r.read(&mut Cursor::new(w)).unwrap();
+            assert_eq!(cast!(DataType::U8, r["tail"]).unwrap(), 7);
+        }""")
+
+
+def component_options(ctx, mir, stats):
+    obs = []
+    f = find_fn(mir, r"^data::<impl at src/model/data\.rs[^>]*>::read$", unique=False)
+    f = [g for g in f if "IndexMap<String, Box<dyn Message>>" in g.header and re.search(r"_1: &mut IndexMap", g.header)]
+    if len(f) != 1:
+        raise Inconclusive("ENCODING-FAILED: Component::read not found uniquely")
+    f = f[0]
+    nxt = call_blocks(f, r"as Iterator>::next$")
+    opt = call_blocks(f, r"<dyn Message as Message>::options$")
+    ins_size = call_blocks(f, r"HashMap::<String, usize>::insert$")
+    ins_skip = call_blocks(f, r"HashSet::<String>::insert$")
+    if len(nxt) != 1 or len(opt) != 1 or len(ins_size) != 1 or len(ins_skip) != 1:
+        raise Inconclusive("ENCODING-FAILED: Component::read shape not recognised (next=%s options=%s inserts=%s/%s)" % (nxt, opt, ins_size, ins_skip))
+    head = nxt[0]
+    rs = result_switch(f, opt[0])
+    if not rs:
+        raise Inconclusive("ENCODING-FAILED: options() result not matched")
+    sw, tg = rs
+    for what, ins in (("Size", ins_size[0]), ("SkipField", ins_skip[0])):
+        arms = [(lab, t) for lab, t in tg.items() if lab != "otherwise" and ins in bfs_reach(f, t, removed_nodes={head})]
+        if len(arms) != 1:
+            obs.append({"id": "Component::read:%s-arm" % what, "ok": False, "functions": [f.name], "detail": "no unique arm of the options match records %s" % what, "needs_native": True, "native": COMPONENT_NATIVE})
+            continue
+        lab, t = arms[0]
+        r = fp_reachable(f, t, head, stats, removed_nodes={ins})
+        obs.append({"id": "Component::read:%s-always-recorded" % what, "ok": not r, "functions": [f.name],
+                    "detail": "every %s option a field announces is recorded before the next field is read (no conditional skip of the insert)" % what if not r else
+                    "a %s option can be dropped: the loop head is reachable from the %s arm without the insert" % (what, what), "where": f.name, "needs_native": True, "native": None if not r else COMPONENT_NATIVE})
+    # sized read: contains_key -> index -> from_elem -> read_exact -> Cursor::new -> dyn read, in that order on one straight path
+    ck = call_blocks(f, r"HashMap::<String, usize>::contains_key")
+    fe = call_blocks(f, r"from_elem::<u8>$")
+    rx = call_blocks(f, r"as std::io::Read>::read_exact$")
+    cu = call_blocks(f, r"Cursor::<Vec<u8>>::new$")
+    idx = call_blocks(f, r"<HashMap<String, usize> as Index<&String>>::index$")
+    ok = len(ck) == 1 and len(fe) == 1 and len(rx) == 1 and len(cu) == 1 and len(idx) == 1
+    if ok:
+        order = [idx[0], fe[0], rx[0], cu[0]]
+        for a, b in zip(order, order[1:]):
+            ok = ok and fp_reachable(f, a, b, stats) and not fp_reachable(f, b, a, stats, removed_nodes={head})
+        # the allocation size is the recorded size
+        src = " ".join(f.blocks[fe[0]].stmts + f.blocks[idx[0]].stmts + f.blocks[dict(f.blocks[idx[0]].t["targets"])["return"]].stmts)
+        ok = ok and f.blocks[idx[0]].t["dest"] in src
+    obs.append({"id": "Component::read:sized-field-protocol", "ok": bool(ok), "functions": [f.name],
+                "detail": "a field with a recorded size is read as: look up size, allocate exactly that many bytes, read_exact, parse the field from a cursor over them" if ok else "sized-field read sequence changed",
+                "where": f.name, "needs_native": True, "native": None if ok else COMPONENT_NATIVE})
+    # write and length: a SkipField announced by a field is recorded, skipped names are neither written nor counted
+    for meth in ("write", "length"):
+        gs = [g for g in find_fn(mir, r"^data::<impl at src/model/data\.rs[^>]*>::%s$" % meth, unique=False) if re.search(r"_1: &IndexMap<String, Box<dyn Message>>", g.header)]
+        if len(gs) != 1:
+            raise Inconclusive("ENCODING-FAILED: Component::%s not found" % meth)
+        g = gs[0]
+        cont = call_blocks(g, r"HashSet::<String>::contains")
+        ins = call_blocks(g, r"HashSet::<String>::insert$")
+        act = call_blocks(g, r"<dyn Message as Message>::%s$" % meth)
+        nx = call_blocks(g, r"as Iterator>::next$")
+        if len(cont) != 1 or len(ins) != 1 or len(act) != 1 or len(nx) != 1:
+            raise Inconclusive("ENCODING-FAILED: Component::%s shape not recognised" % meth)
+        rs2 = result_switch(g, cont[0])
+        if not rs2:
+            raise Inconclusive("ENCODING-FAILED: contains() result not branched on in Component::%s" % meth)
+        s2, t2 = rs2
+        # on the `contained` edge the field action is not reachable before the loop head
+        skip_edge = [(l, t) for l, t in t2.items() if l != "0"]
+        r = any(act[0] in bfs_reach(g, t, removed_nodes={nx[0]}) for l, t in skip_edge)
+        r0 = act[0] in bfs_reach(g, t2["0"], removed_nodes={nx[0]})
+        obs.append({"id": "Component::%s:skipped-field-not-%s" % (meth, "written" if meth == "write" else "counted"), "ok": (not r) and r0, "functions": [g.name],
+                    "detail": "a field named by an earlier SkipField is passed over; every other field is %s" % ("written" if meth == "write" else "counted") if ((not r) and r0) else "skip handling changed in Component::%s" % meth,
+                    "where": g.name, "needs_native": True, "native": None if ((not r) and r0) else COMPONENT_NATIVE})
+    return obs
